@@ -1,0 +1,61 @@
+//go:build verif
+
+package NoKV
+
+import (
+	"github.com/feichai0017/NoKV/lsm"
+	"github.com/feichai0017/NoKV/manifest"
+)
+
+// Verification accessors (build tag "verif" only). They expose existing
+// internals to the runtime-monitoring harness and never change behaviour.
+
+// VerifLSM returns the underlying LSM tree.
+func (db *DB) VerifLSM() *lsm.LSM { return db.lsm }
+
+// VerifVlogFile identifies one value-log segment.
+type VerifVlogFile struct {
+	Bucket uint32
+	Fid    uint32
+	Active bool
+}
+
+// VerifVlogFiles lists the value-log segments currently known to the managers.
+func (db *DB) VerifVlogFiles() []VerifVlogFile {
+	var out []VerifVlogFile
+	if db.vlog == nil {
+		return out
+	}
+	for b, mgr := range db.vlog.managers {
+		if mgr == nil {
+			continue
+		}
+		active := mgr.ActiveFID()
+		for _, fid := range mgr.ListFIDs() {
+			out = append(out, VerifVlogFile{Bucket: uint32(b), Fid: fid, Active: fid == active})
+		}
+	}
+	return out
+}
+
+// VerifRewriteVlog runs the existing value-log rewrite on one sealed segment,
+// bypassing only the sampling decision of doRunGC. It takes the same per-bucket
+// busy flag as the regular GC path.
+func (db *DB) VerifRewriteVlog(bucket, fid uint32) error {
+	if !db.vlog.tryStartBucketGC(bucket) {
+		return nil
+	}
+	defer db.vlog.finishBucketGC(bucket)
+	err := db.vlog.rewrite(bucket, fid)
+	if err == nil {
+		db.vlog.lfDiscardStats.Lock()
+		delete(db.vlog.lfDiscardStats.m, manifest.ValueLogID{Bucket: bucket, FileID: fid})
+		db.vlog.lfDiscardStats.Unlock()
+	}
+	return err
+}
+
+// VerifOracleState reports the oracle's next timestamp and watermarks.
+func (db *DB) VerifOracleState() (nextTs, txnDoneUntil, readDoneUntil uint64) {
+	return db.orc.nextTxnTs.Load(), db.orc.txnMark.DoneUntil(), db.orc.readMark.DoneUntil()
+}
